@@ -27,7 +27,15 @@ from io import BytesIO
 
 from vlib.harness import PropertyViolation
 
-LINK_TYPES = ["Amplifier", "Generator", "MultiSynth", "Echo", "MultiCtl", "Filter", "Sampler", "Lfo", "MetaModule", "MetaModule"]
+def _link_types():
+    from vlib import specmodel
+
+    common = ["Amplifier", "Generator", "MultiSynth", "Echo", "MultiCtl", "Filter", "Sampler", "Lfo", "MetaModule", "MetaModule"]
+    # every attachable type can be an end of a link (default-constructed: players without data, empty samplers ...)
+    return common + sorted(t for t in specmodel.load() if t != "Output")
+
+
+LINK_TYPES = _link_types()
 
 
 def pairs_of_op(op):
@@ -77,13 +85,15 @@ def model_apply(E, op):
 class World:
     """The real library side."""
 
-    def __init__(self, n_initial=0, types=None):
+    def __init__(self, n_initial=0, types=None, base=0):
         from rv.api import Project
 
         self.project = Project()
         self.foreign = Project()
         self._mk(self.foreign, "Amplifier")
         self._mk(self.foreign, "Amplifier")
+        for _ in range(base):
+            self._mk(self.project, "Amplifier")
         for i in range(n_initial):
             self._mk(self.project, (types or ["Amplifier"])[i % len(types or ["Amplifier"])])
 
